@@ -39,6 +39,7 @@ type c01Case struct {
 	Transport string     `json:"transport"`
 	Rev       int        `json:"rev"`
 	B64       bool       `json:"b64"`
+	B64Once   bool       `json:"b64_flag_only_on_the_handshake_request"`
 	JSONP     bool       `json:"jsonp"`
 	AcceptEnc string     `json:"accept_encoding"`
 	Threshold int        `json:"compress_threshold"`
@@ -130,6 +131,8 @@ func genC01(rng *rand.Rand, allowNonASCIIv3bin bool) c01Case {
 			}
 		}
 	}
+	// drawn last so that the cases generated before this field existed stay what they were
+	c.B64Once = c.B64 && c.Transport == "polling" && rng.IntN(3) == 0
 	return c
 }
 
@@ -232,7 +235,7 @@ func runC01(c c01Case, rng *rand.Rand, r *rep.Report) (key, msg string, stats ma
 			}
 			w := rig.NewWorld(rig.Options{Server: so})
 			defer w.Finish()
-			cl, err := w.Connect(rig.ClientCfg{Rev: c.Rev, Transport: c.Transport, B64: c.B64, JSONP: c.JSONP, J: "7", AcceptEnc: c.AcceptEnc, WSCompress: c.PMD >= 0})
+			cl, err := w.Connect(rig.ClientCfg{Rev: c.Rev, Transport: c.Transport, B64: c.B64, B64OnlyAtHandshake: c.B64Once, JSONP: c.JSONP, J: "7", AcceptEnc: c.AcceptEnc, WSCompress: c.PMD >= 0})
 			rig.Wait()
 			var sock engine.Socket = w.Socket(0)
 			if err != nil || sock == nil {
